@@ -167,6 +167,16 @@ func (x *Exec) snapshot(label string) {
 		if !raceEnabled {
 			s.MapSizes = mapSizes(verifBackend(wr.W))
 		}
+		// what this watcher's reader goroutine is parked on (readers are created in watcher order)
+		ri := 0
+		for _, t := range x.S.Tasks() {
+			if t.Role == "reader" {
+				if ri == wr.ReaderIdx {
+					s.Reader = t.Pending()
+				}
+				ri++
+			}
+		}
 		wr.Snaps = append(wr.Snaps, s)
 	}
 }
